@@ -66,6 +66,11 @@ def main():
         finally:
             sh("git -C /repo checkout -- .")
             sh("rm -f /verif/replays/*.json")
-    json.dump(results, open('/verif/mutants/own_results.json', 'w'), indent=1)
+    try:
+        old = json.load(open('/verif/mutants/own_results.json'))
+    except Exception:
+        old = {}
+    old.update(results)
+    json.dump(old, open('/verif/mutants/own_results.json', 'w'), indent=1, sort_keys=True)
 
 main()
